@@ -21,10 +21,10 @@ func init() {
 			"R3": "every effect in the method is guarded by the hand call's err == nil; every exit after the hand call returns that err",
 			"R4": "Player<X> invokes Game.<X>; published label equals the action constant of X",
 			"R5": "hand-side single action: validator call first with own index (and own action name); backend call / ready-group signal / state update dominated by validator success",
-			"R6": "validator definitions: engine-side ok ⇒ status playing ∧ index set; current-player validator ok ⇒ player exists ∧ index == current player; allowed-action validator ok ⇒ player exists ∧ HasAction(index, action)",
+			"R6": "validator definitions: engine-side ok ⇒ status playing ∧ index set; current-player validator ok ⇒ player exists ∧ index == current player; allowed-action validator ok ⇒ player exists ∧ HasAction(index, action); each hand-side validator refuses only for one of its reasons",
 			"R9": "the hand-state hook stores each new state in the table first and clears the published last action exactly at round close",
 			"R8": "the status the engine-side validator relies on (playing) is stored only after the hand's Start succeeded (shared with C07.R1)",
-			"R7": "last-action store is built from the caller's own id and player index and (wager actions, pass) followed by an action event carrying that same value; action record fields come from their parameters",
+			"R7": "last-action store is built from the caller's own id and player index and (wager actions, pass) followed by an action event carrying that same value; action record fields come from their parameters; the naming fields of the published action are filled whenever their source exists (only conditions: a hand state exists / the player index is in range)",
 		},
 		Assumptions: []string{"pokerface CheckAction rejects disallowed wager actions of the current player (outside the repo)"},
 		Run:         checkC10,
